@@ -1,5 +1,6 @@
 (* C06  Server enforces request deadlines, never early.
-   Statements only.  Proofs: coq/ServerState.v, coq/ServerSim4.v, coq/ServerWitness.v.
+   Statements only.  Proofs: coq/ServerState.v, coq/ServerSim4.v, coq/ServerSim7.v, coq/ServerWitness.v,
+   coq/ServerProofsPB5.v, PB6.v (monitor theorems), coq/ServerExecProofs2.v (through execute()).
 
    Proved here (state form, every transport, every state):
      - the timer armed for a request is due at min(deadline, now + MAX_TIMEOUT) or later (the
@@ -22,7 +23,10 @@
                                         c06_ok c ops (fst (srun c t0 ops)) = true
    The exact statements, for every transport, are pinned as ServerSpec.stmt_s06_rel / stmt_s06 (flag
    level: stmt_s_v06l_rel / stmt_s_v06l; the early clause v06e is C06_never_early_monitor below).
-   Environment hypothesis (C16): virtual clock below 2^35 ms (idle-wheel range of the DelayQueue). *)
+   Clock: the monitor theorems need no clock hypothesis (the observer ignores OOracle).  The generated
+   scripts stay below 2^35 ms; the order oracle provably agrees with the model's due set up to
+   2^36 - 1 - MAX_TIMEOUT = 37183476735 ms (C16_server_oracle_agrees_cfg); the DelayQueue's range
+   beyond it is the environment hypothesis dq_env of C16. *)
 From Coq Require Import List Bool Arith NArith.
 Import ListNotations.
 From TarpcV Require Import Base Transport TimerWheel Server ServerMon ServerFuel ServerWitness ServerSim4
@@ -113,6 +117,31 @@ Theorem C06_monitor : forall (T C : Type) (tp : transport T response cmsg) (ctl 
   c06_ok c ops (fst (run tp ctl tfuel c t0 ops)) = true.
 Proof. exact s06. Qed.
 
+(* for a channel driven through tarpc's own execute() (ServerExec.v: futures TakeWhile/FilterMap/Map
+   transcribed, tied to the real Channel::execute by the srvx driver): stops_after_error is
+   discharged, only B1 (and the known class) remains *)
+From TarpcV Require Import ServerExec ServerExecProofs ServerExecProofs2.
+Theorem C06_monitor_rel_exec : forall (T C : Type) (tp : transport T response cmsg) (ctl : T -> C -> T)
+    (tfuel : T -> nat) (c : cfg) (t0 : T) (eops : list (eop C)),
+  tfuel_ok tp tfuel ->
+  let ops := exec_ops tp ctl tfuel c t0 eops in
+  let v := observe c ops (exec_trace tp ctl tfuel c t0 eops) in
+  c06_rel_ok c ops (exec_trace tp ctl tfuel c t0 eops) = true
+  /\ h_stop v = true /\ v_bad v = false /\ v06e v = true /\ (h_b1 v = true -> v06l_rel v = true).
+Proof. exact ServerExecProofs2.C06_monitor_rel_exec. Qed.
+
+Theorem C06_monitor_exec : forall (T C : Type) (tp : transport T response cmsg) (ctl : T -> C -> T)
+    (tfuel : T -> nat) (c : cfg) (t0 : T) (eops : list (eop C)),
+  tfuel_ok tp tfuel ->
+  let ops := exec_ops tp ctl tfuel c t0 eops in
+  let v := observe c ops (exec_trace tp ctl tfuel c t0 eops) in
+  limiter_blocked_on_sink c ops (exec_trace tp ctl tfuel c t0 eops) = false ->
+  c06_ok c ops (exec_trace tp ctl tfuel c t0 eops) = true
+  /\ h_stop v = true /\ v_bad v = false /\ v06e v = true /\ (h_b1 v = true -> v06l v = true).
+Proof. exact ServerExecProofs2.C06_monitor_exec. Qed.
+
+Print Assumptions C06_monitor_rel_exec.
+Print Assumptions C06_monitor_exec.
 Print Assumptions C06_timer_not_before_deadline.
 Print Assumptions C06_expiry_never_early.
 Print Assumptions C06_expiry_frame.
